@@ -38,11 +38,11 @@ ASSUMPTIONS = [
 ]
 BOUNDS = {
     "quick": "every index column over {a,b,c} (up to renaming) with 0..3 rows plus three 4-row tables, and four tables derived as t0 + u after name lookups on t0; every selector of the generated family (positions, lists, all masks, 14 regex forms, name spans, 4 value-range forms with symbolic bounds); "
-             "composition law for every pair (s1 any form, s2 from a 9-element subset)",
+             "composition law for every pair (s1 any form, s2 from a 9-element subset); value ranges over fixed-width numpy columns (10 dtypes, every column of 1..3 cells over a 3-4 value pool of type extremes and wrap-around values, plus 5-8 row sorted/unsorted/constant columns): symbolic bounds decided by z3, and every pair of concrete bounds from the pool",
     "thorough": "0..5 rows, composition for all pairs",
 }
-OUTSIDE = "tables with more than 5 rows; user regular expressions beyond the generated family; float columns (reals) in ranges other than NaN cells and NaN bounds"
-REQUIRED_CLASSES = ["range_checked", "nan_cell", "regex_checked", "composition", "indices_mask", "keyerror", "empty_result"]
+OUTSIDE = "tables with more than 5 rows (8 for the typed columns); user regular expressions beyond the generated family; float columns (reals) in ranges other than NaN cells, NaN bounds and the typed float32/float64 pools; typed cells outside the pools"
+REQUIRED_CLASSES = ["range_checked", "nan_cell", "regex_checked", "composition", "indices_mask", "keyerror", "empty_result", "typed_range_symbolic_bounds", "typed_range_concrete_bounds"]
 PROFILE_CASES = 6
 TASKS_PER_CHILD = 200
 ALPHA = ["a", "b", "c"]
@@ -250,7 +250,90 @@ def resolve(ex, t, data, sel, ref, desc, det):
     return list(ref)
 
 
+# fixed-width numpy columns in value ranges: the cells are concrete (a numpy array of a fixed-width dtype
+# cannot hold a symbol) and drawn from an adversarial pool per dtype (extremes of the type, values whose
+# differences wrap around, unsorted and sorted columns); the bounds are symbolic (z3 decides "selected iff
+# lo <= s[i] <= hi" for every pair of bounds) and, in a second pass, every pair of pool values / None
+TYPED_POOLS = {
+    "uint8": [0, 1, 3, 250], "int8": [-128, -1, 0, 127], "uint16": [0, 2, 65535], "int16": [-32768, 5, 32767],
+    "uint32": [0, 7, 4294967295], "uint64": [0, 9, 2 ** 63], "int64": [-2 ** 63, -1, 2 ** 63 - 1],
+    "int32": [-2 ** 31, 0, 2 ** 31 - 1], "float32": [-1.5, 0.0, 0.5, 2.0 ** 127], "float64": [-2.5, 0.0, 1e-300, 1e300],
+}
+
+
+def run_typed(ex, case):
+    xd = get_xdeps("pure", "start_set_only")
+    dt = case["dtype"]
+    pool = TYPED_POOLS[dt]
+    isf = dt.startswith("float")
+    cells = list(case["cells"])
+    n = len(cells)
+    names = ["abc"[i % 3] for i in range(n)]
+    col = np.array(cells, dtype=dt)
+    pyvals = [c.item() for c in col]
+    w = [ex.int(f"w{i}") for i in range(n)]
+
+    def mk():
+        return xd.Table({"name": np.array(names, dtype=object), "s": col.copy(), "w": np.array(w, dtype=object)}, index="name")
+
+    def rows_of(res):
+        idx = []
+        for c in list(res["w"]):
+            found = [i for i, x in enumerate(w) if x is c]
+            if len(found) != 1:
+                return None
+            idx.append(found[0])
+        return idx
+    det = {"dtype": dt, "column": [repr(v) for v in pyvals]}
+    lo = ex.real("lo") if isf else ex.int("lo")
+    hi = ex.real("hi") if isf else ex.int("hi")
+    for desc, sel, blo, bhi in (("lo:hi:'s'", slice(lo, hi, "s"), lo, hi), ("lo::'s'", slice(lo, None, "s"), lo, None),
+                                (":hi:'s'", slice(None, hi, "s"), None, hi)):
+        t = mk()
+        res = select(t, sel)
+        d = f"rows[{desc}] on a {dt} column"
+        if isinstance(res, str):
+            ex.fail(f"{d}: raised {res}", det)
+            return
+        idx = rows_of(res)
+        if idx is None:
+            ex.fail(f"{d}: result cell is not a source cell", det)
+            return
+        note(ex, "typed_range_symbolic_bounds")
+        if not decide_range(ex, t, {"s": pyvals}, ("range", blo, bhi), idx, d, det):
+            return
+        try:
+            ind = [int(i) for i in np.atleast_1d(t.rows.indices[sel])]
+            msk = [i for i, b in enumerate(t.rows.mask[sel]) if b]
+        except (Abort, Inconclusive):
+            raise
+        except Exception as e:
+            ex.fail(f"{d}: rows.indices/mask raised {type(e).__name__}: {e}", det)
+            return
+        if ind != idx or msk != idx:
+            ex.fail(f"{d}: rows.indices {ind} / rows.mask {msk} but rows[...] selects {idx}", det)
+            return
+    if case.get("concrete_bounds"):
+        bounds = [None] + sorted(set(pool + [pool[0] + 1, pool[-1] - 1] + ([0.25] if isf else [])))
+        for blo in bounds:
+            for bhi in bounds:
+                t = mk()
+                res = select(t, slice(blo, bhi, "s"))
+                d = f"rows[{blo!r}:{bhi!r}:'s'] on a {dt} column"
+                if isinstance(res, str):
+                    ex.fail(f"{d}: raised {res}", det)
+                    return
+                idx = rows_of(res)
+                want = [i for i, v in enumerate(pyvals) if (blo is None or blo <= v) and (bhi is None or v <= bhi)]
+                note(ex, "typed_range_concrete_bounds")
+                if idx != want:
+                    ex.fail(f"{d}: selected rows {idx}, a scan of the column {pyvals} gives {want}", det)
+                    return
+
+
 def run_case(ex, case):
+    if case.get("mode") == "typed":
+        return run_typed(ex, case)
     xd = get_xdeps("pure", "start_set_only")
     names = case["pattern"]
     n = len(names)
@@ -385,6 +468,14 @@ def cases(tier):
         nsel = 2 * n + 5 + 2 ** n + 3 + 20 + 9 + 8
         for s1 in range(nsel):
             out.append({"pattern": pat, "nan": nan, "s1": s1, "s2list": ["range lo:hi", "range :hi", "range lo::", "mask"], "compose": n <= 3})
+    for dt, pool in TYPED_POOLS.items():
+        maxlen = 3 if tier == "quick" else 4
+        for n in range(1, maxlen + 1):
+            for cells in itertools.product(pool, repeat=n):
+                out.append({"mode": "typed", "dtype": dt, "cells": list(cells), "concrete_bounds": n <= 3})
+        # longer unsorted / sorted / constant columns
+        for cells in ([pool[-1], pool[0], pool[1], pool[0], pool[1]], sorted(pool + pool), [pool[1]] * 4, sorted(pool + pool, reverse=True)):
+            out.append({"mode": "typed", "dtype": dt, "cells": list(cells), "concrete_bounds": True})
     for pat, k in derived:
         n = len(pat)
         nsel = 2 * n + 5 + 2 ** n + 3 + 20 + 9 + 8
